@@ -919,6 +919,45 @@ Section PolicyFacts.
         * eapply Forall_impl; [|exact IB]. cbn. intros i Hi. lia.
   Qed.
 
+  (* --- messages with the configuration of their moment --- *)
+  Notation run_configured := (run_configured rule subn lower date_of mid_of recv_of).
+
+  Lemma messages_as_configured : forall chain ms n,
+    run_messages chain n ms = run_configured n (map (fun m => (chain, m)) ms).
+  Proof.
+    induction ms as [|m ms IH]; intros n; cbn [Policy.run_messages Policy.run_configured map]; [reflexivity|].
+    rewrite IH. reflexivity.
+  Qed.
+
+  Lemma configured_no_sharing : forall cms n,
+    NoDup (allids (flat_map results (run_configured n cms)))
+    /\ Forall (fun i => n <= i) (allids (flat_map results (run_configured n cms))).
+  Proof.
+    induction cms as [|[chain m] cms IH]; intros n; cbn [Policy.run_configured flat_map].
+    - split; constructor.
+    - destruct (mk_input_fresh n m) as [Hf Hlo].
+      destruct (run_bounds chain (n + 4) (mk_input n m) n Hf Hlo ltac:(lia)) as (HN & HB & Hnx).
+      destruct (IH (next (run_policies chain (n + 4) (mk_input n m)))) as [IN IB].
+      rewrite allids_app. split.
+      + apply NoDup_app_intro; [exact HN|exact IN|].
+        intros i Hi Hj. rewrite Forall_forall in HB, IB. specialize (HB i Hi). specialize (IB i Hj). cbn in IB. lia.
+      + apply Forall_app_intro.
+        * eapply Forall_impl; [|exact HB]. cbn. intros i Hi. lia.
+        * eapply Forall_impl; [|exact IB]. cbn. intros i Hi. lia.
+  Qed.
+
+  (* every message is rewritten by the rules in force at ITS moment *)
+  Lemma configured_conservation : forall cms n,
+    Forall2 (fun cm s => failed s = false
+                         /\ Permutation (flat_map rcpts (results s)) (map (rw_chain (fst cm)) (m_rcpts (snd cm)))
+                         /\ Forall (fun x => sender x = m_sender (snd cm) /\ body x = m_body (snd cm)) (results s))
+            cms (run_configured n cms).
+  Proof.
+    induction cms as [|[chain m] cms IH]; intros n; cbn [Policy.run_configured]; constructor.
+    - exact (conservation chain (n + 4) (mk_input n m) (proj1 (mk_input_fresh n m))).
+    - apply IH.
+  Qed.
+
 End PolicyFacts.
 
 (* ------------------------------------------------------------------ *)
@@ -1044,6 +1083,17 @@ Section Stateless.
   Proof. intros. unfold mk_input, shift_env. cbn [eid rid hid cid sender rcpts hdr body]. f_equal; lia. Qed.
 
   (* each message of a sequence comes out exactly as it does alone through a new Queue *)
+  Notation run_configured := (run_configured rule subn lower date_of mid_of recv_of).
+
+  Lemma stateless_configured : forall cms n,
+    map outcome (run_configured n cms)
+    = map (fun cm => outcome (run_policies (fst cm) 4 (mk_input 0 (snd cm)))) cms.
+  Proof.
+    induction cms as [|[chain m] cms IH]; intros n; cbn [Policy.run_configured map fst snd]; [reflexivity|].
+    rewrite IH. f_equal. rewrite mk_input_shift. replace (n + 4) with (4 + n) by lia.
+    rewrite run_shift. apply outcome_shift.
+  Qed.
+
   Lemma stateless : forall chain ms n,
     map (outcome) (run_messages chain n ms)
     = map (fun m => outcome (run_policies chain 4 (mk_input 0 m))) ms.
@@ -1128,3 +1178,11 @@ Example ex_messages :
   /\ length (flat_map ids (flat_map results ss)) = 24%nat
   /\ (forall d e, toy_val (shift_env d e) = toy_val e).
 Proof. vm_compute. repeat split. Qed.
+
+(* a rule added between two messages is in force for the second: c is left alone, then c -> c@y *)
+Example ex_configured :
+  let m := mkmsg [115] [[97;64;88]; [99]] [] [104;105] in
+  let ss := run_configured _ toy_subn toy_lower toy_val toy_val toy_val 0
+              [([PForward []; PSplit], m); ([PForward [([99], [99;64;121])]; PSplit], m)] in
+  map (fun s => map rcpts (results s)) ss = [[[[97;64;88]]; [[99]]]; [[[97;64;88]]; [[99;64;121]]]].
+Proof. vm_compute. reflexivity. Qed.
